@@ -103,3 +103,43 @@ def drive_c17(sess, rnd, cfg, record):
     op = make_observe(g, sess.model, cfg)
     op["final"] = True
     yield _emit(record, op)
+
+
+@register_special("C03")
+def drive_c03(sess, rnd, cfg, record):
+    """Three run classes: modest (default settings must solve), stress
+    (overloads, random vtol/itol/maxiter), micro (nA..uA currents judged at
+    the requested tolerance)."""
+    x = rnd.random()
+    klass = "modest" if x < 0.4 else ("stress" if x < 0.8 else "micro")
+    cfg["c03_class"] = klass
+    cfg["neg_params"] = 0.0
+    cfg["w"] = dict(cfg["w"], reject=0.1, analyse=0.1, restart=0.1, observe=0.0, domfault=0.0)
+    if klass == "micro":
+        cfg["micro"] = True
+        sess.tol_atol = 0.0
+        cfg["tables"] = 0.0
+    if klass == "stress":
+        cfg["max_comps"] = min(cfg["max_comps"], 6)
+        cfg["max_depth"] = min(cfg["max_depth"], 4)
+        cfg["phases"] = 0.0
+    yield from _prefix(sess, rnd, cfg, record, n_ops=3)
+    g = sess.gen
+    R = g.r
+    for _ in range(R.randint(2, 6)):
+        m = sess.model
+        if klass == "stress":
+            e = R.wpick([(g.op_overload, 3), (g.op_domfault, 1), (g.op_add_comp, 1), (g.op_change, 1)])(m)
+        else:
+            e = R.wpick([(g.op_add_comp, 3), (g.op_change, 2), (g.op_del, 1), (g.op_domfault, 0.5 if klass == "modest" else 0)])(m)
+        if e:
+            yield _emit(record, e)
+        op = {"op": "observe", "ta": 25.0, "sh": 1, "kw": {}, "c03": klass}
+        m = sess.model
+        if m.sys_phases:
+            op["kw"]["phase"] = R.pick(list(m.sys_phases.keys()))
+        if klass == "stress" or (klass == "micro" and R.chance(0.5)):
+            op["kw"]["vtol"] = 10.0 ** R.randint(-9, -2)
+            op["kw"]["itol"] = 10.0 ** R.randint(-9, -2)
+            op["kw"]["maxiter"] = R.wpick([(0, 1), (1, 1), (2, 1), (3, 1), (5, 1), (10, 1), (100, 2), (1000, 2), (10000, 1)])
+        yield _emit(record, op)
